@@ -1,7 +1,7 @@
 #!/usr/bin/env python3
 """Syntactic mutation sweep over one source file of pitt-rnel/pyrtma, judged by the manager checks' case stream.
 
-    tools/mutate.py <worktree> <relative file> [--limit N] [--only <func>] [--seed S]
+    tools/mutate.py <worktree> <relative file> [--limit N] [--only <func>] [--seed S] [--nums n1,n2,...] [--lines l1,l2,...]
 
 For every mutant (comparison / boolean operator swaps, constant tweaks, deleted simple statements, negated conditions,
 swapped `continue`/`break`) of the file inside the scratch worktree (never /repo), runs `harness.mgr_props.compute`
@@ -14,6 +14,8 @@ wt, rel = sys.argv[1], sys.argv[2]
 limit = int(sys.argv[sys.argv.index("--limit") + 1]) if "--limit" in sys.argv else 10 ** 9
 only = sys.argv[sys.argv.index("--only") + 1] if "--only" in sys.argv else None
 seed = sys.argv[sys.argv.index("--seed") + 1] if "--seed" in sys.argv else "0"
+lines_only = set(int(x) for x in sys.argv[sys.argv.index("--lines") + 1].split(",")) if "--lines" in sys.argv else None
+nums = set(int(x) for x in sys.argv[sys.argv.index("--nums") + 1].split(",")) if "--nums" in sys.argv else None
 path = os.path.join(wt, rel)
 src = open(path).read()
 tree = ast.parse(src)
@@ -138,6 +140,10 @@ for kind, node, i, f in c.sites:
     except SyntaxError:
         continue
     n += 1
+    if nums is not None and n not in nums:
+        continue
+    if lines_only is not None and getattr(node, "lineno", 0) not in lines_only:
+        continue
     open(path, "w").write(text)
     try:
         env = dict(os.environ, PYRTMA_REPO=wt, VERIF_SEED=seed)
